@@ -594,6 +594,12 @@ fn run_body(b: &Built, t: usize, ci: usize, body: &[BodyOp], acc: &mut dyn Acc) 
 				sched::log(format!("{{\"e\":\"panic\",\"t\":{},\"ci\":{}}}", t, ci));
 				std::panic::panic_any(UserPanic);
 			}
+			"probe" => {
+				// ThreadKey::get() while the running call has the thread's key
+				let k = ThreadKey::get();
+				sched::log(format!("{{\"e\":\"probe\",\"t\":{},\"some\":{}}}", t, k.is_some()));
+				drop(k);
+			}
 			o => panic!("harness: unknown body op {o}"),
 		}
 	}
